@@ -21,6 +21,10 @@ func (certificate *Certificate) Marshal() ([]byte, error) {
 }
 
 func (certificate *Certificate) Unmarshal(b []byte) error {
+	if len(b) == 0 {
+		return errors.Errorf("Certificate: No sufficient bytes to decode next certificate")
+	}
+
 	if len(b) > 0 {
 		// bounds checking
 		if len(b) <= 1 {
